@@ -4028,7 +4028,9 @@ class ControlConnection(object):
         # that the policy will update correctly, but in practice this should work.
         self._cluster.profile_manager.on_down(host)
         host.set_location_info(datacenter, rack)
-        self._cluster.profile_manager.on_up(host)
+        # a host that is marked down stays out of the policies' live sets; on_up re-files it when it comes back
+        if host.is_up is not False:
+            self._cluster.profile_manager.on_up(host)
         return True
 
     def _delay_for_event_type(self, event_type, delay_window):
